@@ -4,6 +4,7 @@
 from rzilcompiler.Transformer.Effects.Effect import Effect, EffectType
 from rzilcompiler.Transformer.Effects.Sequence import Sequence
 from rzilcompiler.Transformer.Pures.Pure import Pure
+from rzilcompiler.Transformer.Pures.Bool import Bool
 from rzilcompiler.Transformer.Pures.BooleanOp import BooleanOp
 from rzilcompiler.Transformer.Pures.CompareOp import CompareOp
 
@@ -24,7 +25,7 @@ class ForLoop(Effect):
         :return: RZIL ops to write the pure value.
         """
 
-        if isinstance(self.control, BooleanOp) or isinstance(self.control, CompareOp):
+        if isinstance(self.control, (BooleanOp, CompareOp, Bool)):
             control = self.control.il_read()
         else:
             control = f"NON_ZERO({self.control.il_read()})"
